@@ -1528,6 +1528,10 @@ func (t *tScreen) parseClipboard(buf *bytes.Buffer, evs *[]Event) (bool, bool) {
 		// definitely not a match
 		return false, false
 	}
+	if !bytes.HasPrefix(b, prefix) {
+		// definitely not a match
+		return false, false
+	}
 	b = b[len(prefix):]
 
 	for _, c := range b {
